@@ -304,10 +304,15 @@ def record_traces(seed, quick):
         for alpha in ((0.5, 0.75, 1.0) if ig == 'leapfrog' else (0.5,)):
           dt = rng.choice([0.125, 0.3, 2.0])
           log = []
-          step = _step_fn(ig, _linear_eq(0.3, -0.7, log), dt, alpha)
-          u = (jnp.ones(2), jnp.ones(2)) if ig == 'leapfrog' else jnp.ones(2)
-          for _ in range(steps):
-            u = step(u)
+          try:
+            step = _step_fn(ig, _linear_eq(0.3, -0.7, log), dt, alpha)
+            u = (jnp.ones(2), jnp.ones(2)) if ig == 'leapfrog' else jnp.ones(2)
+            for _ in range(steps):
+              u = step(u)
+          except Exception as ex:   # pylint: disable=broad-except
+            traces.append({'ig': ig, 'alpha': list(Fraction(alpha).as_integer_ratio()), 'steps': steps, 'src': 'toy', 'ev': [],
+                           'skip': common.harness_artifact(ex), 'error': f'{type(ex).__name__}: {str(ex)[:200]}'})
+            continue
           traces.append({'ig': ig, 'alpha': list(Fraction(alpha).as_integer_ratio()), 'steps': steps,
                          'src': 'toy',
                          'ev': [{'k': k, 'eta': _eta_frac(e, dt) if e is not None else [0, 1]} for k, e in log]})
@@ -337,11 +342,16 @@ def record_traces(seed, quick):
       for ig in (igs if not quick else ['rk3', 'sil3', 'leapfrog', 'rk4']):
         dt = 1e-3
         log = []
-        step = _step_fn(ig, wrap(eq, log), dt, 0.5)
-        u = (x0, x0) if ig == 'leapfrog' else x0
         nsteps = 2
-        for _ in range(nsteps):
-          u = step(u)
+        try:
+          step = _step_fn(ig, wrap(eq, log), dt, 0.5)
+          u = (x0, x0) if ig == 'leapfrog' else x0
+          for _ in range(nsteps):
+            u = step(u)
+        except Exception as ex:   # pylint: disable=broad-except
+          traces.append({'ig': ig, 'alpha': [1, 2], 'steps': nsteps, 'src': name, 'ev': [],
+                         'skip': common.harness_artifact(ex), 'error': f'{type(ex).__name__}: {str(ex)[:200]}'})
+          continue
         leaves = jax.tree_util.tree_leaves(u)
         finite = all(bool(jnp.isfinite(v).all()) for v in leaves)
         traces.append({'ig': ig, 'alpha': [1, 2], 'steps': nsteps if finite else -1, 'src': name,
@@ -413,8 +423,13 @@ def run(ctx):
   ctx.sample({'kind': 'amp', 'case': amp[len(amp) // 3]})
   ctx.sample({'kind': 'args', 'case': ra.cases[7]})
   # traces
-  traces = record_traces(ctx.seed, q)
-  okids, bad = validate_traces(ctx, traces, 'impl')
+  allt = record_traces(ctx.seed, q)
+  for t in allt:
+    if 'error' in t and not t.get('skip'):
+      ctx.mismatch('trace', t, f'trace:exception:{t["ig"]}:{t["src"]}', f'the real integrator raised {t["error"]}')
+  traces = [t for t in allt if 'error' not in t]
+  ctx.notes['traces_skipped_eager_mode_unavailable'] = sum(1 for t in allt if t.get('skip'))
+  okids, bad = validate_traces(ctx, traces, 'impl') if traces else (set(), [])
   ctx.traces += len(okids)
   # Which callbacks an integrator evaluates in which order is not part of the property: a rejected
   # call sequence is a violation only if a value-level comparison of the same integrator fails too
@@ -429,16 +444,18 @@ def run(ctx):
                          'drift': t['ig'] not in value_bad,
                          'detail': 'call sequence of the real integrator is not a behaviour of its stage program'})
   import copy
-  cor = copy.deepcopy([t for t in traces if t['ig'] != 'rk4'][:6])
+  cor = copy.deepcopy([t for t in traces if t['ig'] != 'rk4' and (i_ := traces.index(t) + 1) in okids][:6])
   for t in cor:
     gi = [i for i, e in enumerate(t['ev']) if e['k'] == 'Ginv']
     t['ev'][gi[-1]]['eta'][0] += 1
-  _, badc = validate_traces(ctx, cor, 'corrupt')
-  if len(badc) != len(cor):
-    raise common.MachineryError('corrupted integrator traces accepted')
-  ctx.notes['corrupted_traces_rejected'] = len(badc)
-  ctx.sample({'kind': 'trace', 'case': {k: traces[-1][k] for k in ('ig', 'src', 'steps')},
-              'events': traces[-1]['ev'][:6]})
+  if cor:
+    _, badc = validate_traces(ctx, cor, 'corrupt')
+    if len(badc) != len(cor):
+      raise common.MachineryError('corrupted integrator traces accepted')
+    ctx.notes['corrupted_traces_rejected'] = len(badc)
+  if traces:
+    ctx.sample({'kind': 'trace', 'case': {k: traces[-1][k] for k in ('ig', 'src', 'steps')},
+                'events': traces[-1]['ev'][:6]})
   ctx.assumptions += [
       'Carpenter-Kennedy RK4: order conditions hold to the accuracy of the published 13 digits; decided to 1e-12 in '
       'decimal fixed point (BigInt.tla) for G = 0; its IMEX behaviour is bound through the generic low-storage driver',
